@@ -1669,7 +1669,7 @@ class Parameter(_ParameterBase):
                 # trigger): what the watchers it reaches assign to this
                 # parameter meanwhile are assignments of their own
                 obj._param__private.syncing = obj._param__private.syncing - {name}
-            ref, deps, val, is_async = obj.param._resolve_ref(self, val)
+            ref, deps, val, is_async = obj.param._resolve_ref(self, val, schedule=False)
             refs = obj._param__private.refs
 
             # The link bookkeeping is only committed once the value has been
@@ -1688,6 +1688,10 @@ class Parameter(_ParameterBase):
                 elif self.constant:
                     raise TypeError("Constant parameter '%s' cannot be modified" % name)
                 update_ref()
+                if is_async:
+                    # scheduled once the reference is registered: without a
+                    # running event loop the evaluation runs right here
+                    async_executor(partial(obj.param._async_ref, name, val, ref))
                 return
 
         # Deprecated Number set_hook called here to avoid duplicating setter
@@ -2362,7 +2366,7 @@ class Parameters:
             with _syncing(self_.self, updates):
                 self_.update(updates)
 
-    def _resolve_ref(self_, pobj, value):
+    def _resolve_ref(self_, pobj, value, schedule=True):
         is_gen = inspect.isgeneratorfunction(value)
         is_async = iscoroutinefunction(value) or is_gen
         deps = resolve_ref(value, recursive=pobj.nested_refs)
@@ -2373,7 +2377,7 @@ class Parameters:
             value = resolve_value(value, recursive=pobj.nested_refs)
         except Skip:
             value = Undefined
-        if is_async:
+        if is_async and schedule:
             async_executor(partial(self_._async_ref, pobj.name, value, ref))
             value = None
         return ref, deps, value, is_async
